@@ -79,6 +79,21 @@ def generate(seed, tier):
     cfg["opw"]["copy"] = cfg["opw"].get("copy", 1) * 2
     cfg["length"] = min(cfg["length"], 45 if tier == "quick" else 100)
     ops, gstats = hist.generate_history(rng, cfg, extra_propose=propose)
+    if kind == "H" and rng.random() < 0.08:
+        # scenario: one giant component (10-14 nodes) plus a small remainder that carries a hyperedge of its own,
+        # then the largest-component extraction; the random history continues afterwards
+        labs = list(range(20, 36)) if cfg["labels"] not in ("str", "numstr", "str16") else ["g%02d" % i for i in range(16)]
+        m = rng.randint(10, 14)
+        giant, rest = labs[:m], labs[m:m + 1]
+        pre = [{"op": "add_edge", "a": 0, "e": [giant[i], giant[i + 1]] + ([giant[(i + 5) % m]] if rng.random() < 0.3 and (i + 5) % m not in (i, i + 1) else [])} for i in range(m - 1)]
+        pre.append({"op": "add_edge", "a": 0, "e": [rest[0]]})
+        if cfg["weighted"]:
+            for o in pre:
+                o["w"] = rng.randint(1, 5)
+        pre.append({"op": "d_lcc", "a": 0})
+        cfg["universe"] = list(cfg["universe"]) + labs
+        k0 = 1 if ops and ops[0].get("op") == "ctor" else 0
+        ops = ops[:k0] + pre + ops[k0:]
     if len(ops) >= 4 and rng.random() < (0.25 if tier == "quick" else 0.5):
         # one exhaustive selection step per run, on actor 0, somewhere after the third operation
         pos = rng.randint(3, len(ops))
